@@ -39,6 +39,10 @@ def defs_of(cfg: CFG, fi: FuncInfo):
                     v = value.elts[i]
                 elif isinstance(value, Elem):
                     v = Elem(value.iter_expr, (*value.path, i))
+                elif isinstance(value, (ast.Name, ast.Attribute, ast.Call, ast.Subscript)) and not any(isinstance(e, ast.Starred) for e in target.elts):
+                    # a, b = f(x): a is f(x)[0] - keeps the identity of unpacked helper results
+                    v = ast.Subscript(value=value, slice=ast.Constant(value=i), ctx=ast.Load())
+                    h = "unpack-index"
                 else:
                     h = "unpack"
                 bind(t, v, node, h)
